@@ -149,6 +149,10 @@ func init() {
 			Assumptions: []string{"the device does not echo secrets (property's assumption)"},
 			QuickRuns:   240,
 			ThoroughS:   300,
+			Legs: []Leg{
+				{Name: "D", QuickRuns: 240, Share: 0.85},
+				{Name: "S", Prop: "C11S", QuickRuns: 300, Share: 0.15},
+			},
 		},
 		Gen:    genC11,
 		New:    func() Scenario { return &Session{} },
